@@ -266,14 +266,51 @@ def rule_f(F):
             sel.append((x, "Iterator::%s%s" % (x["name"], " on a reversed iterator" if rev else ""), first))
     # explicit scan: an `if` whose then-branch assigns the running best
     updates = []
+    impure = []
+    inits = hu.let_inits(f)
+
+    def resolve(e, depth=0):
+        e = hu.strip_casts(e)
+        while e is not None and e.get("k") == "path" and e["path"]["res"].get("k") == "local" and depth < 4:
+            ins = inits.get(e["path"]["res"]["id"], [])
+            if len(ins) != 1:
+                break
+            e = hu.strip_casts(ins[0])
+            depth += 1
+        return e
+
+    def pure_cmp(e):
+        """-> list of comparison ops if the condition is nothing but a comparison of two Values (possibly selected by a
+        const `if`), else None"""
+        e = resolve(e)
+        if e is None:
+            return None
+        if e.get("k") == "bin" and e["op"] in ("Lt", "Le", "Gt", "Ge"):
+            return [e["op"]]
+        if e.get("k") == "if" and e.get("else") is not None:
+            a, b = pure_cmp(e["then"]), pure_cmp(e["else"])
+            return None if a is None or b is None else a + b
+        if e.get("k") == "block" and not e["block"]["stmts"] and e["block"].get("expr") is not None:
+            return pure_cmp(e["block"]["expr"])
+        return None
     for x in hir_walk(f.hir["body"]):
         if x.get("k") == "if" and any(y.get("k") == "assign" for y in hir_walk(x["then"])) and x.get("else") is None:
-            ops = [y["op"] for y in hir_walk(x["cond"]) if y.get("k") == "bin" and y["op"] in ("Lt", "Le", "Gt", "Ge")]
-            if ops and "Value" in "".join(str(y.get("ty")) + str(y.get("l", {}).get("ty")) for y in hir_walk(x["cond"]) if y.get("k") == "bin"):
+            c = resolve(x["cond"])
+            has_cmp = any(y.get("k") == "bin" and y["op"] in ("Lt", "Le", "Gt", "Ge") and "Value" in str(y.get("l", {}).get("ty")) for y in hir_walk(c))
+            if not has_cmp:
+                continue
+            ops = pure_cmp(x["cond"])
+            if ops is None:
+                impure.append(x)
+            else:
                 updates.append((x, ops))
-    if not sel and not updates:
+    if not sel and not updates and not impure:
         return [undecided("C09.F", key, f.loc(), "selection mechanism of native_minmax not recognised")]
     probs = []
+    for x in impure:
+        probs.append("the running best is replaced under a condition that is more than the comparison of the new key with the best key "
+                     "(line %s): a row can take over although it does not compare better (e.g. a nil key-function result mistaken for "
+                     "'no candidate yet')" % x.get("ln"))
     for x, what, first in sel:
         if not first:
             probs.append("%s (line %s) returns the LAST of several equal extremes" % (what, x.get("ln")))
